@@ -6,6 +6,7 @@ package main
 
 import (
 	"fmt"
+	"go/constant"
 	"go/token"
 	"go/types"
 	"sort"
@@ -777,10 +778,198 @@ func (p *Program) pollObligations() []sob {
 // C19: determinism.  Sources of nondeterminism: iteration over maps (incl. reflect MapKeys),
 // formatting of addresses.
 
+// addressLeaks: formatting a pointer (or an interface value that holds one) with %v, %+v, %#v or %p prints
+// memory addresses - its own, or those of the pointers nested in the struct it points to - unless the
+// type prints itself (String / Error / Format).  Every formatting call with a constant format is checked.
+func (p *Program) addressLeaks(f *ssa.Function, key string) []sob {
+	var out []sob
+	n := 0
+	for _, b := range f.Blocks {
+		for _, in := range b.Instrs {
+			ci, ok := in.(ssa.CallInstruction)
+			if !ok {
+				continue
+			}
+			fn, ok := ci.Common().Value.(*ssa.Function)
+			if !ok || fn.Pkg == nil || fn.Pkg.Pkg.Path() != "fmt" {
+				continue
+			}
+			args := ci.Common().Args
+			fi := -1
+			switch fn.Name() {
+			case "Sprintf", "Errorf", "Printf":
+				fi = 0
+			case "Fprintf":
+				fi = 1
+			default:
+				continue
+			}
+			if fi >= len(args) {
+				continue
+			}
+			fc, ok := args[fi].(*ssa.Const)
+			if !ok || fc.Value == nil {
+				continue
+			}
+			format := constant.StringVal(fc.Value)
+			// the variadic operands: stores into the [N]any array behind the slice
+			var vals []ssa.Value
+			if sl, ok := args[len(args)-1].(*ssa.Slice); ok {
+				if al, ok := sl.X.(*ssa.Alloc); ok {
+					byIdx := map[int64]ssa.Value{}
+					for _, ref := range *al.Referrers() {
+						ia, ok := ref.(*ssa.IndexAddr)
+						if !ok {
+							continue
+						}
+						ic, ok := ia.Index.(*ssa.Const)
+						if !ok {
+							continue
+						}
+						for _, r2 := range *ia.Referrers() {
+							if st, ok := r2.(*ssa.Store); ok {
+								v := st.Val
+								if mi, ok := v.(*ssa.MakeInterface); ok {
+									v = mi.X
+								}
+								if chi, ok := v.(*ssa.ChangeInterface); ok {
+									v = chi.X
+								}
+								byIdx[ic.Int64()] = v
+							}
+						}
+					}
+					for i := int64(0); i < int64(len(byIdx)); i++ {
+						vals = append(vals, byIdx[i])
+					}
+				}
+			}
+			// verbs in order
+			ai := 0
+			for i := 0; i < len(format); i++ {
+				if format[i] != '%' {
+					continue
+				}
+				j := i + 1
+				for j < len(format) && strings.ContainsRune("+-# 0123456789.*", rune(format[j])) {
+					j++
+				}
+				if j >= len(format) {
+					break
+				}
+				verb := format[j]
+				i = j
+				if verb == '%' {
+					continue
+				}
+				if ai < len(vals) && vals[ai] != nil && (verb == 'v' || verb == 'p') {
+					if why := p.printsAddresses(vals[ai].Type(), verb == 'p'); why != "" {
+						n++
+						out = append(out, sob{Name: fmt.Sprintf("%s#determinism.address.%d", key, n), OK: false,
+							Src: "a formatted value must not print memory addresses", Detail: fmt.Sprintf("%%%c of %s in %q: %s", verb, types.TypeString(vals[ai].Type(), nil), format, why), Pos: p.posOf(in)})
+					} else {
+						n++
+						out = append(out, sob{Name: fmt.Sprintf("%s#determinism.address.%d", key, n), OK: true, Src: "a formatted value must not print memory addresses", Pos: p.posOf(in)})
+					}
+				}
+				ai++
+			}
+		}
+	}
+	return out
+}
+
+func (p *Program) printsAddresses(t types.Type, verbP bool) string {
+	hasPrinter := func(t types.Type) bool {
+		for _, m := range []string{"String", "Error", "Format", "GoString"} {
+			if obj, _, _ := types.LookupFieldOrMethod(t, true, nil, m); obj != nil {
+				if _, isFn := obj.(*types.Func); isFn {
+					return true
+				}
+			}
+		}
+		return false
+	}
+	switch tt := t.Underlying().(type) {
+	case *types.Pointer:
+		if verbP {
+			return "%p prints the address"
+		}
+		if hasPrinter(t) {
+			return ""
+		}
+		if st, ok := tt.Elem().Underlying().(*types.Struct); ok {
+			for i := 0; i < st.NumFields(); i++ {
+				if holdsPointer(st.Field(i).Type(), 0) {
+					return "the struct it points to holds pointers, which print as addresses"
+				}
+			}
+			return ""
+		}
+		return "a pointer prints as an address"
+	case *types.Interface:
+		if verbP {
+			return "%p prints the address"
+		}
+		if hasPrinter(t) {
+			return ""
+		}
+		if nt, ok := types.Unalias(t).(*types.Named); ok && nt.Obj().Pkg() != nil && isModulePkg(nt.Obj().Pkg()) {
+			for _, im := range p.allNamed {
+				if _, isIface := im.Underlying().(*types.Interface); isIface {
+					continue
+				}
+				pt := types.NewPointer(im)
+				if types.Implements(pt, tt) && !types.Implements(im, tt) {
+					if why := p.printsAddresses(pt, false); why != "" {
+						return "it may hold a *" + im.Obj().Name() + ": " + why
+					}
+				}
+			}
+			return ""
+		}
+		if tt.NumMethods() == 0 {
+			return "" // any: decided where the value is made
+		}
+		return ""
+	case *types.Map, *types.Chan, *types.Signature:
+		if verbP {
+			return "%p prints the address"
+		}
+	}
+	return ""
+}
+
+func holdsPointer(t types.Type, depth int) bool {
+	if depth > 3 {
+		return false
+	}
+	switch tt := t.Underlying().(type) {
+	case *types.Pointer, *types.Chan, *types.Signature:
+		return true
+	case *types.Interface:
+		return true
+	case *types.Slice:
+		return holdsPointer(tt.Elem(), depth+1)
+	case *types.Array:
+		return holdsPointer(tt.Elem(), depth+1)
+	case *types.Map:
+		return holdsPointer(tt.Key(), depth+1) || holdsPointer(tt.Elem(), depth+1)
+	case *types.Struct:
+		for i := 0; i < tt.NumFields(); i++ {
+			if holdsPointer(tt.Field(i).Type(), depth+1) {
+				return true
+			}
+		}
+	}
+	return false
+}
+
 func (p *Program) determinismObligations() []sob {
 	var out []sob
 	for _, f := range p.libraryFuncs() {
 		key := p.keyOf[f]
+		out = append(out, p.addressLeaks(f, key)...)
 		n := 0
 		for _, b := range f.Blocks {
 			for _, in := range b.Instrs {
